@@ -65,6 +65,9 @@ CLAIMED = {
     "C17": ("other", "DESIGN.md#c17", "symbolic execution of the copy routes of Trimesh / Primitive / Path2D / PointCloud / Scene / VoxelGrid / ColorVisuals; read-state, copy route, edited side and edit SITE are solver variables (forked), the written value a fresh symbolic real; z3 decides that the other object's values equal their snapshot",
             "For each kind a real object with a symbolic payload is copied by .copy(), copy.copy or copy.deepcopy (chosen by the solver), with or without derived values read before; then one edit is applied at a solver-chosen site (in-place array writes, nested metadata, attributes, visuals, primitive parameters, graph edges, API mutators) on the copy or the original with a symbolic value outside the range of every existing value, and every value of the other object - re-read after the edit - is compared with its snapshot; right after copying both objects must report the same values.",
             TRUSTED + "small catalogue objects; one edit (two in the thorough tier, mesh kind); textures, shapely polygons and cameras not compared."),
+    "C18": ("other", "DESIGN.md#c18", "symbolic execution of repair.fix_winding / fix_inversion / fix_normals / fill_holes and remesh.subdivide / subdivide_to_size / subdivide_loop on solids with symbolic coordinates; re-wound / removed / subdivided face subsets are solver variables (forked), the size bound a symbolic real split by the code's own comparisons; z3 decides the numeric obligations",
+            "Every subset of re-wound faces (and every starting corner of each face) of a tetrahedron and of two disjoint tetrahedra with symbolic apexes is repaired by the real fix_normals and each face must come back as a cyclic rotation of its outward original, with no vertex moved and positive signed volume per body (z3, all coordinates); every single missing triangle / cube side is closed by fill_holes with the outward winding and the solid's volume; subdivision keeps the original vertices as a prefix, tiles every face (vector areas add up, each child a parallel quarter), keeps the volume and, for all faces, watertightness and Euler number; subdivide_to_size leaves no edge above ANY bound in the stated interval.",
+            TRUSTED + "catalogue solids (genus 0); bounds of subdivide_to_size limited to <= 2 rounds in the quick tier; subdivide_loop: topology only; stitch and higher genus not claimed."),
 }
 
 NOT_APPLICABLE = {
